@@ -454,14 +454,43 @@ def eval_return(sc, atom_value, maxsteps=120, try_atoms=False):
     body = sc.body
     b = 0
     result = None
+    env = {}      # named locals with several definitions: the value assigned on the path walked
+
+    def subst(n, depth=0):
+        """replace multi-definition locals in the result by the value they were given on this path"""
+        if depth > 6:
+            return n
+        k = n[0]
+        if k == "var" and n[1] in env:
+            return subst(strip(env[n[1]]), depth + 1)
+        if k == "bin":
+            return ("bin", n[1], subst(n[2], depth + 1), subst(n[3], depth + 1))
+        if k == "un":
+            return ("un", n[1], subst(n[2], depth + 1))
+        if k == "cast":
+            return ("cast", subst(n[1], depth + 1), n[2])
+        if k == "call":
+            return ("call", n[1], tuple(subst(a, depth + 1) for a in n[2]), n[3])
+        if k == "agg":
+            return ("agg", n[1], n[2], tuple(subst(a, depth + 1) for a in n[3]))
+        if k == "proj":
+            from .exprs import mkproj
+            return mkproj(subst(n[1], depth + 1), n[2])
+        return n
+    multi = {l for l, ds in body.defs().items() if isinstance(l, int) and l != 0 and len(ds) > 1 and l in body.names}
     for _ in range(maxsteps):
         for s in body.blocks[b]["st"]:
             if s["s"] == "assign" and s["p"] == 0:
                 result = strip(sc.rvalue(s["rv"]))
+            elif s["s"] == "assign" and isinstance(s["p"], int) and s["p"] in multi:
+                try:
+                    env[s["p"]] = sc.rvalue(s["rv"])
+                except Exception:
+                    env.pop(s["p"], None)
         t = body.blocks[b]["term"]
         k = t["t"]
         if k == "return":
-            return result
+            return subst(result) if (result is not None and env and not isinstance(result, tuple)) else result
         if k == "goto":
             b = t["to"]
             continue
@@ -471,6 +500,10 @@ def eval_return(sc, atom_value, maxsteps=120, try_atoms=False):
                 v = (atom_value(n) if try_atoms else None) or "0"
             else:
                 v = atom_value(n)
+                if v is None and env:
+                    n2 = strip(subst(n))
+                    if n2 != n:
+                        v = atom_value(n2)
             if v is None:
                 return ("stuck", show(n)[:160])
             nxt = None
@@ -482,6 +515,11 @@ def eval_return(sc, atom_value, maxsteps=120, try_atoms=False):
         if k == "call":
             if t["dest"] == 0:
                 result = strip(sc._rw(sc.eb.call_node(t, b)))
+            elif isinstance(t["dest"], int) and t["dest"] in multi:
+                try:
+                    env[t["dest"]] = sc._rw(sc.eb.call_node(t, b))
+                except Exception:
+                    env.pop(t["dest"], None)
             if "to" not in t:
                 return ("stuck", "diverges")
             b = t["to"]
